@@ -406,28 +406,28 @@ func Shrink06(pl any) []any {
 // world06 is one simulated trie world: SimKV disk, real triedb, trie under test and
 // its sequential twin.
 type world06 struct {
-	p      *Plan06
-	res    *simcore.Result
-	kv     *simdisk.SimKV
-	tdb    *triedb.Database
-	gdb    *gatedNodeDB
-	sched  atomic.Pointer[simsched.Sched]
-	reads  atomic.Int64
-	tr     *trie.Trie
-	twin   *trie.Trie
-	root   common.Hash // last committed root
+	p        *Plan06
+	res      *simcore.Result
+	kv       *simdisk.SimKV
+	tdb      *triedb.Database
+	gdb      *gatedNodeDB
+	sched    atomic.Pointer[simsched.Sched]
+	reads    atomic.Int64
+	tr       *trie.Trie
+	twin     *trie.Trie
+	root     common.Hash // last committed root
 	diskRoot common.Hash
-	live   map[common.Hash]bool // roots the path database currently has a layer for
-	block  uint64
-	m      model // current contents
-	cm     model // contents at the last commit
-	armed  atomic.Bool
-	dreads atomic.Int64 // disk reads of trie nodes while armed
-	fired  atomic.Bool
-	tapeAt int
-	log    simcore.Hash64
-	sfp    simcore.Hash64
-	choice int
+	live     map[common.Hash]bool // roots the path database currently has a layer for
+	block    uint64
+	m        model // current contents
+	cm       model // contents at the last commit
+	armed    atomic.Bool
+	dreads   atomic.Int64 // disk reads of trie nodes while armed
+	fired    atomic.Bool
+	tapeAt   int
+	log      simcore.Hash64
+	sfp      simcore.Hash64
+	choice   int
 }
 
 func isTrieNodeKey(scheme string, key []byte) bool {
